@@ -218,9 +218,9 @@ def serveConnR (n : Nat) (ρ : Nat → ChainRes) : ConnOut :=
   let acc : ConnOut := { calls := s.calls, outs := [], backend := 0, served := 0, unknown := s.unknown }
   let acc := if fl == .ret then acc else serveLoop ρ n acc
   -- deferred c.finish(): HandleFinish, verdict discarded
-  -- a panic inside it skips the `c.close()` that follows it in the same deferred function
+  -- `c.close()` is itself deferred inside that function (fix 95335f7): it also runs when a finish filter panics
   let z := ρ pFinish
-  { acc with calls := acc.calls ++ z.calls.map fun i => (pFinish, i), closed := !z.boom }
+  { acc with calls := acc.calls ++ z.calls.map fun i => (pFinish, i), closed := true }
 
 /-- the connection with filter chains `ch pt` registered at the callback points: every point sees its chain only
     through the result of `HandlerList.FilterXxx` -/
